@@ -73,6 +73,13 @@ def main():
         meta.update(json.loads(Path("/verif/tools/seeded_summaries.json").read_text()).get(a.keep_as or mut.name, {}))
     except Exception:
         pass
+    try:        # the author's own description, when the change comes with one
+        own = json.loads((mut / "meta.json").read_text())
+        for k in ("property", "what", "needs"):
+            if k in own and k not in meta:
+                meta[k] = own[k]
+    except Exception:
+        pass
     meta["ran"] = ("scratch worktree /tmp/eval-repo at /repo HEAD: cargo build, git apply patch.diff, cargo build, cargo test --workspace "
                    "--offline (all must pass), demo.sd on both binaries (must differ), then ./check <id> on an rsync copy of /verif with "
                    "SEED_REPO=/tmp/eval-repo; worktree reverted afterwards")
